@@ -8,7 +8,7 @@ def run(tier, seed, cx):
     t0 = time.time()
     samples = []
     for prof in ('debug', 'release'):
-        p = subprocess.run(['%s/%s/h_par' % (cx['TARGET'], prof), str(seed), str(worlds)], stdout=subprocess.PIPE, stderr=subprocess.PIPE, text=True, timeout=3000)
+        p = subprocess.run(['%s/%s/h_par' % (cx['TARGET'], prof), str(seed), str(worlds)], stdout=subprocess.PIPE, stderr=subprocess.PIPE, text=True, errors='replace', timeout=3000)
         last = p.stdout.strip().split('\n')[-1] if p.stdout.strip() else ''
         import re
         m = re.search(r'checks=(\d+) mismatches=(\d+)', last)
